@@ -2,14 +2,14 @@
 # regress_seeded.sh — every kept seed against the check of its own property (development target).
 # Writes seeded/REGRESSION.txt: one line per seed, "caught" or "MISSED".  Serial (the Coq build directory is shared).
 cd "$(dirname "$0")/.."
-export RUN_SEEDED_NO_SETUP=1
+export RUN_SEEDED_NO_SETUP=1 RUN_SEEDED_NO_DEMO=1
 out=seeded/REGRESSION.txt; : > $out.tmp
 for d in seeded/C*/; do
   id=$(basename $d); p=${id%%-*}
   r=$(tools/run_seeded.py $d --checks $p 2>&1 | tail -1)
   if echo "$r" | grep -q "\"caught_by\": \[\"$p\"\]"; then echo "$id caught by $p" >> $out.tmp; else echo "$id MISSED by $p: $r" >> $out.tmp; fi
 done
-unset RUN_SEEDED_NO_SETUP
+unset RUN_SEEDED_NO_SETUP RUN_SEEDED_NO_DEMO
 ./setup.sh >/dev/null 2>&1
 mv $out.tmp $out
 grep -c caught $out; grep MISSED $out
